@@ -19,12 +19,14 @@ THEOREMS = [
     "below_quorum", "finished_never_ok_unchecked", "timeout_never_ok",
     "split_returns_all_versions", "split_is_complete", "merged_is_transaction_union", "merged_covers_all",
     "merge_perm_invariant", "split_tx_is_union", "split_reg_is_union", "split_pad_is_max",
-    "api_ok_is_reply_or_merge",
+    "api_ok_is_reply_or_merge", "api_ok_from_single_attempt", "api_err_is_an_attempts_error",
     "joined_caller_refuted", "merge_forked_register_refuted", "merge_mixed_kinds_refuted",
     "merge_scratchpad_tie_refuted", "merged_drops_quorum_version_refuted",
 ]
 RULE = ("histories of 2-14 events on a real client-mode SwarmDriver: 1-4 callers (raw oneshot callers and real "
-        "get_record_from_network futures) on 1-2 keys with equal/different quorum (One, Majority, All, N(1..7), "
+        "get_record_from_network futures, 15 %% of the histories being multi-attempt reads: RetryStrategy::N(2..4), quorum >= 2, the "
+        "harness playing the driver in every attempt with the same single holder / fresh peers / one more peer per attempt "
+        "answering, on a paused tokio clock so the real back-off sleeps are free) on 1-2 keys with equal/different quorum (One, Majority, All, N(1..7), "
         "N(huge)) / target / is_register / expected_holders settings (empty, subset / superset of / disjoint from the "
         "responders, the local peer; fewer, as many and more holders than the quorum; holders answering first or last), 0-8 responders incl. the local peer (None and Some(self)), 1-4 "
         "content versions (chunks, transactions, registers, scratchpads, unparsable headers, payment kinds; same "
@@ -464,7 +466,10 @@ def oracle_factory(cgs):
                 else:
                     bad = []
                     if len(by_content[cj]) < need:
-                        bad.append("only %d distinct peer(s) returned this content, the caller's quorum is %d" % (len(by_content[cj]), need))
+                        bad.append("only %d distinct peer(s) returned this content%s, the caller's quorum is %d"
+                                   % (len(by_content[cj]), " within the attempt that produced it (attempt %d of %d made; replies "
+                                      "of separate attempts must not be added up)" % (len(attempts), len(attempts))
+                                      if len(attempts) > 1 else "", need))
                     if not target_ok(c["cfg"], okrec):
                         bad.append("the record is not the caller's expected record")
                     if bad:
@@ -694,6 +699,50 @@ def gen_holders_hist(rng):
     return {"kind": "hist", "events": evs}
 
 
+def gen_retry_hist(rng):
+    """the retry loop of get_record_from_network: one api caller with RetryStrategy::N(2..4) and quorum >= 2;
+    in every attempt the harness plays the driver: the same single holder answers again / fresh peers answer /
+    one more peer per attempt / random; one version or a split; finished, timeout, not found or nothing.
+    A peer answering once per attempt must never add up to a quorum; one attempt more than allowed is
+    scripted (no command may arrive for it)."""
+    n = rng.choice([2, 2, 3, 3, 4])
+    quorum = rng.choice([["n", 2], ["n", 2], ["n", 3], ["n", 4], ["maj"], ["all"]])
+    qv = quorum_value(quorum, 5)
+    key = rng.randrange(1, 6)
+    pool = rng.choice([[c_raw(1), c_raw(2)], [c_tx([1]), c_tx([2]), c_tx([1, 2])],
+                       [c_reg(0, [1]), c_reg(0, [2]), c_reg(1, [3])],
+                       [c_pad(True, 1, 1), c_pad(True, 2, 2), c_pad(True, 2, 3)]])
+    target = rec(key, pool[0]) if rng.random() < 0.25 else None
+    isreg = target is not None and pool[0]["p"][0] == "reg" and rng.random() < 0.5
+    c = cfg(quorum, target, isreg, retry=n, holders=gen_holders(rng, quorum))
+    evs = [{"e": "cmd", "key": key, "cfg": c, "api": True}]
+    if rng.random() < 0.2:
+        evs.append({"e": "cmd", "key": key, "cfg": cfg(quorum, target, isreg) if rng.random() < 0.6 else cfg(["one"])})
+    mode = rng.choice(["same", "same", "same", "fresh", "fresh", "growing", "random"])
+    k = rng.randrange(1, qv) if qv > 1 else 1           # fewer holders than the quorum
+    same = rng.sample(range(1, 9), min(k, 8))
+    for a in range(n + 1):
+        if a > 0:
+            evs.append({"e": "await_cmd"})
+        if mode == "same":
+            peers = list(same)
+        elif mode == "fresh":
+            peers = [1 + (a * k + i) % 8 for i in range(k)]
+        elif mode == "growing":
+            peers = list(range(1, a + 2))
+        else:
+            peers = [rng.choice([None, 0, 1, 2, 3, 4, 5]) for _ in range(rng.randrange(0, qv + 2))]
+        if rng.random() < 0.2 and peers:
+            peers = peers + [peers[0]]                   # a duplicated reply inside the attempt
+        split = rng.random() < 0.2
+        for i, p in enumerate(peers):
+            cc = pool[(i % 2) if split else 0] if rng.random() < 0.9 else rng.choice(pool)
+            evs.append({"e": "found", "q": a, "peer": p, "rec": rec(key, cc), "step": 1})
+        t = rng.choice(["finished", "finished", "finished", "finished", "timeout", "notfound", "quorumfailed"])
+        evs.append({"e": t, "q": a, "key": key})
+    return {"kind": "hist", "events": evs}
+
+
 def gen_hist(rng, deep=False):
     pool = content_pool(rng)
     nkeys = rng.choice([1, 1, 1, 2])
@@ -836,6 +885,8 @@ def gen(ctx):
         cases.append({"kind": "quorum", "q": q})
     for _ in range(1500 if quick else 10000):
         cases.append(gen_holders_hist(rng) if rng.random() < 0.2 else gen_hist(rng, deep=not quick))
+    for _ in range(300 if quick else 2500):
+        cases.append(gen_retry_hist(rng))
     for _ in range(300 if quick else 1000):
         cases.append(gen_split(rng, 16 if quick else 32))
     for _ in range(300 if quick else 2000):
